@@ -60,13 +60,6 @@ Ev == Rec[l]
 T(prop, what) == {<<l, prop, what>>}
 Lift(S) == {<<l, s[1], s[2]>> : s \in S}
 
-\* known panic sites of the unchanged code (deviations named in Tower.tla)
-AbortClass(code) ==
-    CASE code = "S2" -> "watcher.rs:unwrap_err:AlreadyExists"
-      [] code = "S11" -> "responder.rs:unwrap_err:MissingField"
-      [] code = "S18" -> "responder.rs:unwrap_none"
-      [] OTHER -> "?"
-
 -----------------------------------------------------------------------------
 (* Conformance: expected (specification) vs logged, per component.         *)
 
@@ -100,8 +93,7 @@ CacheTags(p, wc, ri) ==
 \* abort handling: returns <<tags, compare?>>
 AbortTags(expAbort, logAbort, prop) ==
     IF logAbort # ""
-    THEN IF expAbort \in {"S2", "S11", "S18"} /\ AbortClass(expAbort) = logAbort
-         THEN T("C11", "abort:" \o expAbort) ELSE T("C11", "abort:" \o logAbort)
+    THEN T("C11", "abort:" \o logAbort)    \* the specification has no aborting step: every panic of the code is a C11 matter
     ELSE IF expAbort = "norpc" THEN T(prop, "conf.node_not_asked") ELSE {}
 
 \* compare the post-state only when neither side aborted
